@@ -47,7 +47,7 @@ class Gen:
             return ("len", i, n)
         if k < 0.72 and self.strs:
             i, n = r.choice(self.strs)
-            return ("idx", i, n, self.int_expr(d + 2) if r.random() < 0.4 else ("lit", r.randrange(-1, 6)))
+            return ("idx", i, n, self.int_expr(d + 2) if r.random() < 0.4 else ("lit", r.choice([-1, 0, 1, 2, 3, 4, 7, 8, 8, 9, 255, 256])))   # (the output is str[8]: at and around the size)
         if k < 0.80 and self.allow_last:
             return ("last",)
         if k < 0.86:
